@@ -62,7 +62,7 @@ RULE = ("Cases are single calls of dfols.solve on random small problems (linear+
         "invalid-input / unknown-name case (the branch no test reaches), or a valid case that sets at least one "
         "non-default argument or parameter and performed more than one objective evaluation.")
 
-CPU_NOEVAL_LIMIT = 5.0     # seconds of process CPU time without any objective evaluation -> hang
+CPU_NOEVAL_LIMIT = 6.0     # seconds of process CPU time without any objective evaluation -> hang
 CPU_TOTAL_LIMIT = 15.0     # seconds of process CPU time for one solve that keeps evaluating -> 'slow': abandoned, not judged
 
 
@@ -389,8 +389,8 @@ def _known_raise(case, o):
         npt = n + 1
     ndirs = up.get('growing.ndirs_initial')
     reduced = ndirs is not None and ndirs < npt - 1
-    if o['exc'] == 'RuntimeError' and case.get('proj') and (npt != n + 1 or reduced) \
-            and 'initial directions' in o.get('exc_msg', ''):
+    if o['exc'] == 'RuntimeError' and case.get('proj') and (npt != n + 1 or reduced or up.get('restarts.increase_npt')) \
+            and 'initial directions' in o.get('exc_msg', ''):      # (increase_npt: npt != n+1 after the first restart)
         return 'C07:projections_npt_runtimeerror'
     if o['exc'] in ('UnboundLocalError', 'ZeroDivisionError') and case.get('regu') is not None \
             and up.get('func_tol.max_iters') == 0 and o.get('where') == 'trust_region.ctrsbox_sfista':
@@ -402,7 +402,8 @@ def _known_raise(case, o):
     # the point becomes NaN, the objective is called with NaN and the next factorisation raises ValueError
     hard_inc = bool(up.get('restarts.increase_npt')) and up.get('restarts.use_soft_restarts') is False
     beyond_n = (reduced and npt > n + 1) or hard_inc
-    if o['exc'] == 'ZeroDivisionError' and o.get('where') == 'controller.add_new_direction_while_growing':
+    if o['exc'] == 'ZeroDivisionError' and o.get('where') in ('controller.add_new_direction_while_growing',
+                                                              'controller.get_new_direction_for_growing'):
         return 'C07:growing_zero_division'
     if o['exc'] == 'ValueError' and beyond_n and o.get('where') == 'model.factorise_geom_system' \
             and 'infs or NaNs' in o.get('exc_msg', '') and o.get('nan_x_calls', 0) > 0:
@@ -464,6 +465,9 @@ def judge(case, o):
         return None
 
     # ok / accept
+    if o['kind'] == 'raised' and o['exc'] == 'LinAlgError' and \
+            any(k == 'interpolation.throw_error_on_nans' and dec(e) is True for (k, e) in (case.get('user_params') or [])):
+        return None     # documented: this option asks for numpy.linalg.LinAlgError on NaN data
     if o['kind'] == 'raised':
         sig = _known_raise(case, o)
         if sig is None:
@@ -594,6 +598,9 @@ def context_for(key, rng, plain=False):
         n = prob['n']
         lam = 0.1
         ctx['regu'] = {'lam': float(lam).hex(), 'lh': enc(lam * math.sqrt(n)), 'prox': True, 'use_args': False}
+        ctx['up']['dykstra.max_iters'] = 10         # see random_case: keeps S-FISTA x Dykstra cheap
+        if key != 'func_tol.max_iters':
+            ctx['up']['func_tol.max_iters'] = 50
         maxfun = int(rng.integers(12, 22))
     elif pre == 'init':
         if rng.random() < 0.5:
@@ -834,6 +841,7 @@ def arg_case(rng, kind):
         else:
             rg['lh'] = enc(lam * math.sqrt(n))
             ctx['args']['maxfun'] = enc(int(rng.integers(8, 14)))
+            up.update({'func_tol.max_iters': 30, 'dykstra.max_iters': 10})
         ctx['regu'] = rg
     elif kind.startswith('contra_'):
         t = bool(True)
@@ -990,8 +998,9 @@ def random_case(rng):
         feats.append('growing')
     if rng.random() < 0.2:
         up.setdefault('logging.save_diagnostic_info', True)
-    if ctx['regu'] is not None and ctx['proj']:
-        # S-FISTA x Dykstra is the one really expensive combination: keep both iteration caps small (in-range values)
+    if ctx['regu'] is not None:
+        # S-FISTA x Dykstra can cost ~1 s of CPU per iteration with the default caps (500 x 100), and iterations need
+        # not evaluate the objective: keep both caps small (in-range values) so that the hang watchdog stays meaningful
         up['func_tol.max_iters'] = min(up.get('func_tol.max_iters', 30), 30) or 30
         up['dykstra.max_iters'] = min(up.get('dykstra.max_iters', 10), 10) or 10
     pairs = [[k, enc(v)] for k, v in up.items()] or None
